@@ -462,7 +462,7 @@ this needs the rational-valued analogue of `raw_close` (binade crossing in both 
 subnormal branch of `negFinish`) and is **not** done, so `real_within_one_ulp` stays an open
 `Prop` for negative net exponents and is searched by the oracle. -/
 theorem negScale_error_bound (num x : Nat) (hn : num < 2 ^ 64) (hx : x ≤ 2 ^ 20) :
-    ∃ b S k, negScale num x = some (b, x + 64 + S) ∧ k ≤ x / 27 + 1 ∧
+    ∃ b S k, negScale num x = some (b, x + 64 + S) ∧ k ≤ x / 27 + 1 ∧ S ≤ 64 * (x / 27 + 1) ∧
       b * 5 ^ x * 2 ^ 61 ≤ num * 2 ^ (64 + S) * (2 ^ 61 + k) ∧
       num * 2 ^ (64 + S) * 2 ^ 61 ≤ (b + k) * 5 ^ x * (2 ^ 61 + k) :=
   negScale_error num x hn hx
@@ -538,5 +538,55 @@ theorem strToNum_digits_to_end (c : List Nat) (o e : Nat) (neg : Bool) (ds : Lis
 example : strToNum [45] 0 1 = some ⟨.notANumber, 0, 1⟩ := by decide
 example : strToNum [45, 48] 0 2 = some ⟨.real, 2 ^ 63, 2⟩ := by decide
 example : (strToNum [49,50,51,52,53,54,55,56,57,48,49,50,51,52,53,54,55,56,57,48,49,50,51,52,53] 0 25).map (·.offset) = some 25 := by decide
+
+
+/-! ### Negative-exponent numerals with an integer mantissa: within one ulp (proved)
+
+`[+-]? d₁…d_n (e|E) - k₁…k_j`, `d₁ ≠ 0`, `n ≤ 19`, 1..8 exponent digits, mantissa `v ≥ 257` (three or
+more digits; below that the proved error bound of the reciprocal pipeline is not small enough —
+those numerals stay with the open `real_within_one_ulp` and the oracle). The value is `v / 10^k`.
+
+* whole numeral consumed;
+* `k > n + 324`: NotANumber — and then `v/10^k < 2^-1074`, below the smallest subnormal;
+* otherwise `Real`, sign = text, magnitude pattern within **one ulp** of `nearestMag v (10^k)`
+  (round-half-even to binary64, gradual underflow included). -/
+theorem real_within_one_ulp_negexp (c : List Nat) (o e : Nat) (sign : List Nat) (d1 : Nat) (xs : List Nat) (m : Nat)
+    (ks : List Nat) (he : e < 2 ^ 32)
+    (hs : sign = [] ∨ sign = [43] ∨ sign = [45]) (h1 : isNonZeroDigit d1 = true) (hxs : AllDigits xs)
+    (hlen : xs.length ≤ 18) (hm : m = 101 ∨ m = 69)
+    (hks : AllDigits ks) (hk0 : ks ≠ []) (hk8 : ks.length ≤ 8)
+    (hu : unitsAt c e o (sign ++ (d1 :: xs ++ [m] ++ [45] ++ ks)))
+    (hend : endsAt c e (o + sign.length + 1 + xs.length + 1 + 1 + ks.length) isDigit)
+    (hv257 : 257 ≤ decVal (d1 :: xs)) (hkpos : decVal ks ≠ 0) :
+    let v := decVal (d1 :: xs)
+    let k := decVal ks
+    let n := xs.length + 1
+    let fin := o + sign.length + 1 + xs.length + 1 + 1 + ks.length
+    let signBit := if decide (sign = [45]) then 0x8000000000000000 else 0
+    (k > n + 324 ∧ strToNum c o e = some ⟨.notANumber, v, fin⟩ ∧ v * 2 ^ 1074 < 10 ^ k) ∨
+    (k ≤ n + 324 ∧ ∃ p, strToNum c o e = some ⟨.real, p ||| signBit, fin⟩ ∧ p < 2 ^ 63 ∧
+        ulpDist p (nearestMag v (10 ^ k)) ≤ 1) := by
+  intro v k n fin signBit
+  have hdig := isNonZeroDigit_isDigit h1
+  have hf : d1 ≠ 45 ∧ d1 ≠ 43 := by simp [isDigit] at hdig; omega
+  have hu' := (unitsAt_append c e sign (d1 :: xs ++ [m] ++ [45] ++ ks) o).1 hu
+  have hu1 : unitsAt c e o (sign ++ [d1]) := (unitsAt_append c e sign [d1] o).2 ⟨hu'.1, hu'.2.1, trivial⟩
+  rw [strToNum_after_sign c o e sign d1 hs hu1 hf]
+  rw [afterSign_exp_neg c e _ (o + sign.length) d1 xs m ks he h1 hxs hlen hm hks hk0 hk8 hu'.2 hend]
+  have hvlt : v < 10 ^ n := decVal_lt_pow (d1 :: xs) (fun y hy => by
+      rcases List.mem_cons.1 hy with h | h
+      · subst h; exact hdig
+      · exact hxs y h)
+  have hv64 : v < 2 ^ 64 :=
+    Nat.lt_of_lt_of_le hvlt (Nat.le_trans (Nat.pow_le_pow_right (by decide) (show n ≤ 19 by omega)) (by decide))
+  have hk : k < 10 ^ 8 := Nat.lt_of_lt_of_le (decVal_lt_pow ks hks) (Nat.pow_le_pow_right (by decide) hk8)
+  have hdec : decide (decVal ks ≠ 0) = true := by simp [hkpos]
+  rw [hdec]
+  exact realResult_neg _ v n k fin hv257 hv64 hvlt (by omega) hk
+
+/-- `12345e-3`, `-5000e-310` (subnormal), `999e-400` (below the smallest subnormal: rejected) -/
+example : (strToNum [49,50,51,52,53,101,45,51] 0 8).map (fun r => (r.kind, ulpDist (r.bits % 2 ^ 63) (nearestMag 12345 (10 ^ 3)))) = some (.real, 0) := by decide
+example : (strToNum [45,53,48,48,48,101,45,51,49,48] 0 10).map (fun r => (r.kind, r.bits / 2 ^ 63, ulpDist (r.bits % 2 ^ 63) (nearestMag 5000 (10 ^ 310)))) = some (.real, 1, 0) := by decide +kernel
+example : (strToNum [57,57,57,101,45,52,48,48] 0 8).map (·.kind) = some .notANumber := by decide
 
 end Qentem.Props.C09
